@@ -31,6 +31,16 @@ FDS = c07.FDS
 CNT = FDS + ".bytes_read_counter"
 
 
+def _arm_scrut(ix, node):
+    """scrutinee of the innermost match / if-let whose arm contains node"""
+    for a in ix.ancestors(node):
+        if a.get("k") == "Match":
+            return a["scrut"]
+        if a.get("k") == "If" and hq.peel(a["cond"]).get("k") == "Let":
+            return hq.peel(a["cond"])["init"]
+    return None
+
+
 def run(ctx):
     crate = ctx.crate()
     R = "C06.who.dropper"
@@ -160,10 +170,9 @@ def run(ctx):
         src_ok = False
         if okm:
             # += w where w is bound by the Ok(w) arm of `match sink.write(&buf[written..])`
-            pcs = [p for p in wix.path_conditions(muts[0]) if p["kind"] == "arm"]
             accc = wix.canon(hq.peel(muts[0]["l"]))
-            src_ok = any("Write::write(" in p["cond"] and ("[%s..]" % accc) in p["cond"] and
-                         "Ok(%s)" % H.show(hq.peel(muts[0]["r"])) in p["cond"] for p in pcs)
+            inc = hq.Canon(wb, force=True)(muts[0]["r"])
+            src_ok = "Write::write(" in inc and inc.endswith("@Result::Ok.0") and ("[%s..]" % accc) in hq.Canon(wb)(_arm_scrut(wix, muts[0]))
         init = [x for x in hq.find(wb["body"], lambda x: x.get("k") == "LetStmt" and x["pat"].get("name") == acc)]
         ctx.check(len(set(firsts)) == 1 and len(firsts) == 3 and okm and src_ok and len(init) == 1 and H.lit_val(init[0]["init"]) == 0,
                   RP, "write_all_bytes::returns-delivered-count-on-every-exit", wb["file"],
@@ -253,10 +262,12 @@ def run(ctx):
             b = ctx.hir(DB + "::" + fn)
             ix = hq.Index(b)
             c = dom.one_call(b, "DecodeBuffer::drain_to")
-            a0 = H.show(hq.peel(c["args"][0]))
-            pcs = [p["cond"] for p in ix.path_conditions(c) if p["kind"] == "arm"]
-            ok = any("can_drain_to_window_size(self)" in p and ("Some(%s)" % a0) in p for p in pcs)
-            ctx.check(ok, RS, fn + "::amount", H.loc(b, c), "drains exactly what can_drain_to_window_size offers", observed=pcs)
+            # provenance of the amount: the value inside the Some(..) that can_drain_to_window_size returned
+            # (bound by a match arm, if-let, let-else or `?` alike)
+            a0 = hq.Canon(b, force=True)(c["args"][0])
+            offer = "ruzstd::decoding::decode_buffer::DecodeBuffer::can_drain_to_window_size(self)"
+            ok = a0 in (offer + "@Option::Some.0", offer + "?")
+            ctx.check(ok, RS, fn + "::amount", H.loc(b, c), "drains exactly what can_drain_to_window_size offers", observed=a0)
         rb = [p for p in crate.hir if "DecodeBuffer as" in p and p.endswith("::read")][0]
         b = crate.hir[rb]
         pv = hq.Canon(b, inline=True, max_depth=5, force=True)
